@@ -85,6 +85,23 @@ CHECKS = {
         "DESIGN.md 6 C19",
         TRUST,
     ),
+    "C03": (
+        "TLC exhaustive check of Poisson.tla (domain-doubling buffer state machine, arbitrary stale buffers, solve sequences, "
+        "symbolic-linear forms over Green's samples; three wrong variants refuted) + replay of emitted solve sequences into the "
+        "real 2-D/3-D solvers with all work buffers poisoned + measured kernel K[i][j] of the real solver vs closed-form G h^D",
+        "Model checking of the design over all histories (linear in rhs and stale contents: impulses suffice) + conformance of "
+        "the real solver at 5e-12 / 2e-4 against documented closed forms, for every cell pair of many shapes.",
+        "DESIGN.md 6 C03",
+        TRUST,
+    ),
+    "C11": (
+        "TLC exhaustive check of FastDiag.tla (Neumann Laplacian: symmetry, energy form, compatibility on all impulse pairs; "
+        "consistency of emitted problems) + replay of problems with known zero-mean solution into the real 2-D/3-D solvers, "
+        "residual evaluated on the code's output",
+        "Model checking of the discrete operator's algebra on a basis + conformance of the solver on constructed problems.",
+        "DESIGN.md 6 C11",
+        TRUST,
+    ),
 }
 
 NOT_YET = "check not built yet in this round (see DESIGN.md 11 for the build order)"
